@@ -125,7 +125,7 @@ const GLOBAL_NAMES: [&str; 2] = ["g", "range"];
 static LOGGING: AtomicBool = AtomicBool::new(true);
 static REAL_LOG: Mutex<Vec<usize>> = Mutex::new(Vec::new());
 static FRESH_LOG: Mutex<Vec<usize>> = Mutex::new(Vec::new());
-static JUNK_SEEN: Mutex<BTreeMap<(usize, [u8; 5], [u8; 7]), String>> = Mutex::new(BTreeMap::new());
+static JUNK_SEEN: Mutex<BTreeMap<(usize, String), String>> = Mutex::new(BTreeMap::new());
 
 fn loader_fn(table: usize, real: bool) -> impl Fn(&str) -> Result<Option<String>, Error> + Send + Sync + 'static {
     move |name: &str| {
@@ -171,7 +171,7 @@ const RT_DEFAULT: Rt = [0, 0, 1, 0, 0, 0, 0];
 const LT_RANGE: [u8; 5] = [2, 2, 2, 3, 4];
 const RT_RANGE: [u8; 7] = [4, 2, 2, 3, 3, 2, 2];
 const RECURSION_LIMITS: [usize; 3] = [24, 8, 60];
-const FUELS: [Option<u64>; 3] = [None, Some(60), Some(5000)];
+const FUELS: [Option<u64>; 3] = [None, Some(30), Some(5000)];
 
 fn lt_code(lt: &Lt) -> String {
     lt.iter().map(|d| d.to_string()).collect()
@@ -290,43 +290,38 @@ fn expr_tpl(syn: u8, expr: &str) -> String {
 }
 fn include_tpl(syn: u8, name: &str) -> String {
     if syn == 2 {
-        format!("<% include '{}' %>", name)
+        format!("<% extends '{}' %>", name)
     } else {
-        format!("{{% include '{}' %}}", name)
+        format!("{{% extends '{}' %}}", name)
     }
 }
 
-fn fnv(s: &str) -> String {
-    let mut h: u64 = 0xcbf29ce484222325;
-    for b in s.as_bytes() {
-        h ^= *b as u64;
-        h = h.wrapping_mul(0x100000001b3);
-    }
-    format!("{:010x}", h & 0xff_ffff_ffff)
-}
-
-/// fingerprint of a compiled template: its instruction streams (root and blocks), the initial
-/// auto-escape decision and the syntax it carries — everything load-time configuration is baked into
+/// fingerprint of a compiled template: its instruction streams (root and blocks: the kind of every
+/// instruction and the text of every raw emit), the initial auto-escape decision and the syntax it
+/// carries — everything load-time configuration is baked into
 fn fingerprint(t: &minijinja::Template<'_, '_>) -> String {
+    use minijinja::machinery::{Instruction, Instructions};
+    use std::hash::{Hash, Hasher};
     let ct = minijinja::machinery::get_compiled_template(t);
-    let mut s = String::new();
-    let dump = |ins: &minijinja::machinery::Instructions<'_>, s: &mut String| {
+    let mut h = std::collections::hash_map::DefaultHasher::new();
+    let dump = |ins: &Instructions<'_>, h: &mut std::collections::hash_map::DefaultHasher| {
         let mut i = 0;
         while let Some(instr) = ins.get(i) {
-            s.push_str(&serde_json::to_string(instr).unwrap_or_else(|_| "?".into()));
-            s.push('\n');
+            std::mem::discriminant(instr).hash(h);
+            if let Instruction::EmitRaw(s) = instr {
+                s.hash(h);
+            }
             i += 1;
         }
+        i.hash(h);
     };
-    dump(&ct.instructions, &mut s);
+    dump(&ct.instructions, &mut h);
     for (name, ins) in ct.blocks.iter() {
-        s.push_str("block ");
-        s.push_str(name);
-        s.push('\n');
-        dump(ins, &mut s);
+        name.hash(&mut h);
+        dump(ins, &mut h);
     }
-    s.push_str(&format!("{:?}|{:?}", ct.initial_auto_escape, ct.syntax_config));
-    fnv(&s)
+    format!("{:?}|{:?}", ct.initial_auto_escape, ct.syntax_config).hash(&mut h);
+    format!("{:010x}", h.finish() & 0xff_ffff_ffff)
 }
 
 /// The abstraction of one environment (the spec state): what a fresh environment is built from.
@@ -682,13 +677,36 @@ fn observe(env: &Environment<'static>, via_clone: bool) -> Obs {
     let mut renders = Vec::new();
     let mut repeat_fail = None;
     for n in 0..NN {
-        let (g, r) = get_render(o, n, 0);
-        let (g2, r2) = get_render(o, n, 0);
-        if (g.clone(), r.clone()) != (g2.clone(), r2.clone()) && repeat_fail.is_none() {
-            repeat_fail = Some(format!("{}: {} {} then {} {}", NAMES[n], g, r, g2, r2));
+        // one lookup, one fingerprint, two renders (the same template + context twice)
+        let r = guarded(|| match o.get_template(NAMES[n]) {
+            Ok(t) => {
+                let g = format!("{}#{}", src_code(t.source()), fingerprint(&t));
+                let r1 = render_outcome(t.render(make_ctx(0)));
+                let r2 = render_outcome(t.render(make_ctx(0)));
+                let g2 = match o.get_template(NAMES[n]) {
+                    Ok(t2) => src_code(t2.source()),
+                    Result::Err(e) => err_code(&e),
+                };
+                let same = g.starts_with(&format!("{}#", g2));
+                (g, r1, r2, same)
+            }
+            Result::Err(e) => {
+                let g = err_code(&e);
+                let g2 = match o.get_template(NAMES[n]) {
+                    Ok(t2) => src_code(t2.source()),
+                    Result::Err(e) => err_code(&e),
+                };
+                let same = g == g2;
+                let r1 = render_outcome(Result::Err(e));
+                (g, r1.clone(), r1, same)
+            }
+        });
+        let (g, r1, r2, same) = r.unwrap_or_else(|m| ("panic".into(), format!("panic:{}", m), format!("panic:{}", m), true));
+        if (r1 != r2 || !same) && repeat_fail.is_none() {
+            repeat_fail = Some(format!("{}: {} {} then {} (second lookup equal: {})", NAMES[n], g, r1, r2, same));
         }
         gets.push(g);
-        renders.push(r);
+        renders.push(r1);
     }
     // names are never normalised: these are different names
     let probes: Vec<String> = PROBE_NAMES
@@ -967,17 +985,6 @@ fn contents_after(env: &Environment<'static>, before: &BTreeMap<usize, (usize, L
     newc
 }
 
-/// what the real environment itself lists: name -> "s<src>#<fingerprint>"
-fn shown(env: &Environment<'static>) -> BTreeMap<usize, String> {
-    let mut m = BTreeMap::new();
-    for (name, t) in env.templates() {
-        if let Some(ni) = NAMES.iter().position(|x| *x == name) {
-            m.insert(ni, format!("{}#{}", src_code(t.source()), fingerprint(&t)));
-        }
-    }
-    m
-}
-
 /// Returns the first failure and the contents the environment must have afterwards (every name has
 /// been requested at least once: the phase ends with a sweep over all names on the main thread).
 fn threads_phase(live: &Live, k: u64, frng: &mut Rng) -> (Option<String>, BTreeMap<usize, (usize, Lt)>) {
@@ -1248,7 +1255,8 @@ fn run_history(ops: &[Op], hseed: u64) -> (String, String, String, String) {
             Op::Junk { e, k } => {
                 // the outcome of a failing compile/render is a function of the configuration only
                 let res = junk(&envs[*e].env, *k);
-                let key = (*k, envs[*e].spec.lt, envs[*e].spec.rt);
+                let sp = &envs[*e].spec;
+                let key = (*k, format!("{:?}{:?}{:?}{:?}{:?}", sp.lt, sp.rt, sp.filters, sp.tests, sp.globals));
                 let mut seen = JUNK_SEEN.lock().unwrap();
                 match seen.get(&key) {
                     Some(first) if *first != res => {
@@ -1304,8 +1312,12 @@ fn run_history(ops: &[Op], hseed: u64) -> (String, String, String, String) {
                     fails.push(format!("FAILsticky{{env{} {} had {} now {}}}", i, NAMES[*n], want, obs.gets[*n]));
                 }
             }
-            for (n, s) in shown(&l.env) {
-                l.spec.pinned.entry(n).or_insert(s);
+            for ent in obs.listing.split(',').filter(|x| !x.is_empty()) {
+                if let Some((n, rest)) = ent.split_once(':') {
+                    if let Ok(n) = n.parse::<usize>() {
+                        l.spec.pinned.entry(n).or_insert(format!("s{}", rest));
+                    }
+                }
             }
             impl_envs.push(obs.model_part());
             l.last_obs = Some(obs);
